@@ -119,10 +119,10 @@ def run(ctx):
             ctx.count('pt:%s:%s' % (codec, 'ok' if enc is not None else 'violation'))
         if codec in mods:
             CC.corr_encode_decode(ctx, mods[codec], cases[:len(cases) // 2 if ctx.quick else len(cases)])
-    boundary.run(ctx, X.BINARY, mods, lengths=None if not ctx.quick else 'quick')
+    boundary.run(ctx, X.BINARY, mods, lengths=None if not ctx.quick else 'quick', corr_quick=True)
     if not ctx.quick:
         ctx.log('large-length cases')
-        big = X.union_opts(X.BINARY, mods, big=True, max_depth=1, n_types=2)
+        big = X.union_opts(X.BINARY, mods, big=True, max_depth=1, n_types=2, recursion=False)
         for c in CC.gen_cases(ctx, big, 60, 2):
             for codec in X.BINARY:
                 if X.scope_ok(codec, mods, c):
